@@ -17,7 +17,7 @@ const Level = "exploration"
 
 // IDs are deliberately related: equal, case variants, prefixes, trailing
 // space, empty, non-ASCII, embedded NUL, a format verb.
-var IDs = []string{"k", "K", "k1", "kk", "k ", "", "é", "k\x00", "%s", "k"}
+var IDs = []string{"k", "K", "k1", "kk", "k ", "", "é", "k\x00", "%s", "k", "1", "2", "0"}
 
 // Sym is one symbol of the history alphabet.
 type Sym struct {
